@@ -65,7 +65,7 @@ GEO_INPUTS = {
     'Gradient 1': [('uniform', 45, 85), ('normal', 65, 4), ('triangular', 50, 65, 80)],
     'Reservoir Depth': [('uniform', 1.8, 3.2), ('triangular', 2.0, 2.5, 3.0)],
     'Utilization Factor': [('uniform', 0.7, 0.95)],
-    'Ambient Temperature': [('triangular', 10, 15, 25), ('uniform', 5, 25), ('triangular', 10, 10, 25), ('triangular', 5, 25, 25)],
+    'Ambient Temperature': [('triangular', 10, 15, 25), ('uniform', 5, 25), ('uniform', -5, 15), ('normal', -2, 3), ('triangular', 10, 10, 25), ('triangular', 5, 25, 25)],
     # a sampled name that is a proper prefix of another parameter set in the base input ('Inflation Rate During Construction')
     'Inflation Rate': [('uniform', 0.01, 0.04)],
     'Production Flow Rate per Well': [('lognormal', 4.2, 0.15), ('uniform', 40, 100)],
@@ -87,6 +87,35 @@ HIP_INPUTS = {
 HIP_FAIL = {0.3: ('Reservoir Porosity', ('uniform', 30.0, 130.0)),        # > 100 % rejected: P ~ 0.30
             0.9: ('Reservoir Porosity', ('uniform', 91.0, 181.0))}
 HIP_OUTPUTS = ['Producible Heat (reservoir)', 'Producible Electricity (reservoir)', 'Stored Heat (reservoir)']
+
+
+def spell(rng, x):
+    """One of the spellings of the number x that float() reads back as exactly x: plain, explicit plus sign, exponent
+    notation, leading-dot decimals (negative numbers keep their minus sign)."""
+    x = float(x)
+    plain = repr(int(x)) if x == int(x) and abs(x) < 1e15 and rng.random() < 0.7 else repr(x)
+    forms = [plain, plain, plain]
+    if x > 0:
+        forms.append('+' + plain)
+    for digits in (1, 3, 17):
+        e = f'{x:.{digits}e}'
+        if float(e) == x:
+            m, ex = e.split('e')
+            m = m.rstrip('0').rstrip('.') if '.' in m else m
+            forms.append(f'{m}e{int(ex)}')
+            forms.append(f'{m}E{int(ex):+03d}')
+            break
+    if 0 < abs(x) < 1 and plain.lstrip('-').startswith('0.'):
+        forms.append(plain.replace('0.', '.', 1))
+    out = rng.choice(forms)
+    assert float(out) == x, (out, x)
+    return out
+
+
+def _input_line(rng, nm, d):
+    # the trial count of a binomial is read with int(): plain integer spelling only
+    args = [str(x) if (d[0] == 'binomial' and i == 0) else spell(rng, x) for i, x in enumerate(d[1:])]
+    return f'INPUT, {nm}, {d[0]}, ' + ', '.join(args)
 
 
 def make_settings(rng, program, iterations, failure=0.0, n_inputs=None, n_outputs=None, kinds=None):
@@ -115,7 +144,8 @@ def make_settings(rng, program, iterations, failure=0.0, n_inputs=None, n_output
     k = n_outputs or rng.randint(1, min(4, len(outs_all)))
     idx = sorted(rng.sample(range(len(outs_all)), k))
     outputs = [outs_all[i] for i in idx]
-    lines = [f'INPUT, {nm}, {d[0]}, ' + ', '.join(str(x) for x in d[1:]) for nm, d in chosen]
+    # distribution arguments are written in every spelling of a number the settings reader accepts (sign, exponent, ...)
+    lines = [_input_line(rng, nm, d) for nm, d in chosen]
     lines += [f'OUTPUT, {o}' for o in outputs]
     lines.append(f'ITERATIONS, {iterations}')
     return {'program': program, 'inputs': [(nm, list(d)) for nm, d in chosen], 'outputs': outputs, 'iterations': iterations,
